@@ -347,6 +347,15 @@ def r5_disabled(ctx):
     # native side: the same is_disabled without the flag
     fdm = ctx.func(DM)
     calls = [c for c in walk_scope(fdm.node) if isinstance(c, ast.Call) and isinstance(c.func, ast.Attribute) and c.func.attr == 'is_disabled']
+    if not calls:
+        # the selection may have been extracted into a helper of runner.py (inlining bound 1)
+        for c0 in walk_scope(fdm.node):
+            if isinstance(c0, ast.Call):
+                r0 = ctx.res.resolve_call(fdm, c0)
+                if r0[0] == 'repo':
+                    for h in r0[1]:
+                        if h.module is fdm.module:
+                            calls += [c for c in walk_scope(h.node) if isinstance(c, ast.Call) and isinstance(c.func, ast.Attribute) and c.func.attr == 'is_disabled']
     ok = bool(calls) and all(not c.args and not c.keywords for c in calls)
     rep.ob('C15.R5', ctx.loc(fdm, calls[0] if calls else fdm.node), 'native: example.is_disabled()', ok, 'native runner uses the base pattern set' if ok else 'native runner does not consult is_disabled()', nontrivial=False, anchor=DM)
 
